@@ -208,6 +208,63 @@ def token_deletions(src: str):
     return out
 
 
+def _sig_tokens(src: str):
+    try:
+        return [t for t in pytok.generate_tokens(io.StringIO(src).readline) if t.type in (pytok.NAME, pytok.OP, pytok.NUMBER, pytok.STRING) and t.start[0] == t.end[0]]
+    except (pytok.TokenError, SyntaxError, IndentationError):
+        return []
+
+
+def token_duplications(src: str):
+    """Every single-token duplication, with and without a blank between the copies (systematic)."""
+    lines = src.split("\n")
+    out = []
+    for t in _sig_tokens(src):
+        ln = lines[t.start[0] - 1]
+        for sep in (" ", ""):
+            new = lines[: t.start[0] - 1] + [ln[: t.end[1]] + sep + t.string + ln[t.end[1] :]] + lines[t.start[0] :]
+            out.append("\n".join(new))
+    return out
+
+
+def blank_deletions(src: str):
+    """Every run of blanks between two tokens of a line removed (systematic): glued tokens."""
+    toks = _sig_tokens(src)
+    lines = src.split("\n")
+    out = []
+    for a, b in zip(toks, toks[1:]):
+        if a.end[0] == b.start[0] and b.start[1] > a.end[1]:
+            ln = lines[a.end[0] - 1]
+            if ln[a.end[1] : b.start[1]].strip(" \t") == "":
+                new = lines[: a.end[0] - 1] + [ln[: a.end[1]] + ln[b.start[1] :]] + lines[a.end[0] :]
+                out.append("\n".join(new))
+    return out
+
+
+def continuation_blanks(src: str):
+    """Every backslash continuation followed by a blank / a tab / a comment before the line break."""
+    lines = src.split("\n")
+    out = []
+    for i, ln in enumerate(lines):
+        if ln.endswith("\\") and not ln.endswith("\\\\"):
+            for extra in (" ", "  ", "\t", " # c"):
+                out.append("\n".join(lines[:i] + [ln + extra] + lines[i + 1 :]))
+    return out
+
+
+def indentation_swaps(src: str):
+    """Every indented line with its leading 8 blanks written as a tab, or its leading tab as 8 blanks, one line at a time:
+    the column (tab size 8) stays the same, consistency of tabs and blanks does not."""
+    lines = src.split("\n")
+    out = []
+    for i, ln in enumerate(lines):
+        if ln.startswith(" " * 8) and ln.strip():
+            out.append("\n".join(lines[:i] + ["\t" + ln[8:]] + lines[i + 1 :]))
+        elif ln.startswith("\t") and ln.strip():
+            out.append("\n".join(lines[:i] + [" " * 8 + ln[1:]] + lines[i + 1 :]))
+    return out
+
+
 import ast as _ast
 
 
